@@ -151,7 +151,7 @@ class OpenIDProviderMetadata(AuthorizationServerMetadata):
         none and RS256.
         """
         values = self.get("request_object_signing_alg_values_supported")
-        if not values:
+        if values is None:
             return
 
         if not isinstance(values, list):
@@ -181,7 +181,7 @@ class OpenIDProviderMetadata(AuthorizationServerMetadata):
         in Section 3.1.2.1 of OpenID Connect Core 1.0.
         """
         values = self.get("display_values_supported")
-        if not values:
+        if values is None:
             return
 
         if not isinstance(values, list):
@@ -199,7 +199,7 @@ class OpenIDProviderMetadata(AuthorizationServerMetadata):
         the implementation supports only normal Claims.
         """
         values = self.get("claim_types_supported")
-        if not values:
+        if values is None:
             return
 
         if not isinstance(values, list):
